@@ -14,14 +14,14 @@ SAN_RE = re.compile(r"(ERROR: AddressSanitizer|ERROR: LeakSanitizer|WARNING: Thr
                     r"AddressSanitizer:DEADLYSIGNAL|ThreadSanitizer:DEADLYSIGNAL|UndefinedBehaviorSanitizer)")
 
 
-def san_env(flavour, extra=None, leaks=True, halt=True):
+def san_env(flavour, extra=None, leaks=True, halt=True, symbolize=True):
     env = dict(os.environ)
     sym = "/usr/lib/llvm-14/bin/llvm-symbolizer"
     if not os.path.exists(sym):
         sym = "/usr/bin/llvm-symbolizer-14"
     env.pop("LD_PRELOAD", None)
-    env["ASAN_OPTIONS"] = "detect_leaks=%d:halt_on_error=%d:abort_on_error=0:symbolize=1:allocator_may_return_null=1:exitcode=77" % (
-        1 if leaks else 0, 1 if halt else 0)
+    env["ASAN_OPTIONS"] = "detect_leaks=%d:halt_on_error=%d:abort_on_error=0:symbolize=%d:allocator_may_return_null=1:exitcode=77" % (
+        1 if leaks else 0, 1 if halt else 0, 1 if symbolize else 0)
     env["UBSAN_OPTIONS"] = "halt_on_error=%d:print_stacktrace=1:exitcode=78" % (1 if halt else 0)
     env["TSAN_OPTIONS"] = "halt_on_error=%d:second_deadlock_stack=1:exitcode=66:history_size=4" % (1 if halt else 0)
     env["LSAN_OPTIONS"] = "exitcode=79"
@@ -34,10 +34,10 @@ def san_env(flavour, extra=None, leaks=True, halt=True):
     return env
 
 
-def run_exe(exe, args, flavour="rel", timeout=600, env=None, leaks=True, halt=True, cwd=None, stdin=None):
+def run_exe(exe, args, flavour="rel", timeout=600, env=None, leaks=True, halt=True, cwd=None, stdin=None, symbolize=True):
     """returns dict(rc, out, err, reports[list of str], timed_out, wall)"""
     t = time.time()
-    e = san_env(flavour, env, leaks=leaks, halt=halt)
+    e = san_env(flavour, env, leaks=leaks, halt=halt, symbolize=symbolize)
     cwd = cwd or str(VERIF / "out")
     os.makedirs(cwd, exist_ok=True)
     try:
@@ -48,8 +48,30 @@ def run_exe(exe, args, flavour="rel", timeout=600, env=None, leaks=True, halt=Tr
         rc, to = None, True
         out = (ex.stdout or b"").decode(errors="replace")
         err = (ex.stderr or b"").decode(errors="replace")
+    if not symbolize and SAN_RE.search(err):
+        err = symbolize_offline(err)
     reports = san_reports(err)
     return dict(rc=rc, out=out, err=err, reports=reports, timed_out=to, wall=time.time() - t)
+
+
+def symbolize_offline(text):
+    """Resolve '(module+0xoff)' frames of an unsymbolized sanitizer report with llvm-symbolizer."""
+    sym = "/usr/lib/llvm-14/bin/llvm-symbolizer"
+    if not os.path.exists(sym):
+        return text
+    out = []
+    for line in text.splitlines():
+        m = re.search(r"#(\d+) (0x[0-9a-f]+)\s+\((/[^)+]+)\+0x([0-9a-f]+)\)", line)
+        if m and os.path.exists(m.group(3)):
+            try:
+                r = subprocess.run([sym, "-e", m.group(3), "0x" + m.group(4)], stdout=subprocess.PIPE, timeout=20)
+                parts = r.stdout.decode(errors="replace").strip().splitlines()
+                if len(parts) >= 2:
+                    line = "    #%s %s in %s %s" % (m.group(1), m.group(2), parts[0], parts[1])
+            except Exception:
+                pass
+        out.append(line)
+    return "\n".join(out)
 
 
 def san_reports(text):
@@ -72,13 +94,27 @@ def san_reports(text):
 
 
 def report_signature(block):
-    """kind + top-3 frames' function names with line numbers stripped."""
+    """kind + the first in-repo (or harness) frame of each stack, line numbers stripped."""
     kind = block.splitlines()[0]
     kind = re.sub(r"0x[0-9a-f]+", "ADDR", kind)
-    kind = re.sub(r"\d+", "N", kind)[:80]
-    frames = re.findall(r"#\d+ 0x[0-9a-f]+ in (\S+)", block)
-    frames = [f for f in frames if not f.startswith("__") and "sanitizer" not in f and f not in ("malloc", "free", "memcpy", "memset", "calloc", "realloc")]
-    return kind + " @ " + ">".join(frames[:3])
+    kind = re.sub(r"\(pid=\d+\)", "", kind)
+    kind = re.sub(r"\d+", "N", kind).strip()[:80]
+    locs = []
+    stacks = re.split(r"\n\s*\n", block)
+    for st in stacks:
+        for line in st.splitlines():
+            m = re.match(r"\s*#\d+ (?:0x[0-9a-f]+ in )?(.+?) (/\S+?):\d+", line)
+            if not m:
+                continue
+            fn, path = m.group(1), m.group(2)
+            if "/repo" in path or "/mut-" in path or "/verif/native" in path or "/src/" in path:
+                fn = re.sub(r"<.*?>", "", fn)
+                fn = re.sub(r"\(.*", "", fn).split("::")[-1] if "lambda" not in fn else "lambda"
+                loc = "%s:%s" % (path.split("/")[-1], fn[:40])
+                if loc not in locs:
+                    locs.append(loc)
+                break
+    return kind + " @ " + ">".join(locs[:3])
 
 
 def pmap(fn, items, nthreads=16):
